@@ -16,14 +16,17 @@ pub enum Dec {
     Eof,
 }
 
-pub const HARD_KINDS: [&str; 4] = ["Other", "UnexpectedEof", "TimedOut", "BrokenPipe"];
+pub const HARD_KINDS: [&str; 7] = ["Other", "UnexpectedEof", "TimedOut", "BrokenPipe", "WouldBlock", "InvalidData", "ConnectionReset"];
 
 fn hard_err(k: u8) -> io::Error {
     let kind = match k {
         0 => io::ErrorKind::Other,
         1 => io::ErrorKind::UnexpectedEof,
         2 => io::ErrorKind::TimedOut,
-        _ => io::ErrorKind::BrokenPipe,
+        3 => io::ErrorKind::BrokenPipe,
+        4 => io::ErrorKind::WouldBlock,
+        5 => io::ErrorKind::InvalidData,
+        _ => io::ErrorKind::ConnectionReset,
     };
     io::Error::new(kind, "simulated read fault")
 }
